@@ -83,6 +83,28 @@ def runtime_statics(prog, chk, rid):
     return n
 
 
+def handles_stateless(prog, chk, rid):
+    """Handles, implementation classes and table classes hold only ids, shared pointers and table handles (no copy
+    of stored data): what a getter answers is read from the database at the call."""
+    for qn in STATELESS + CONTEXT:
+        r = prog.records.get(qn)
+        if r is None:
+            raise AnalysisBroken('class %s not found' % qn)
+        allowed = ALLOWED_CONTEXT_FIELD if qn in CONTEXT else ALLOWED_FIELD
+        bad = []
+        for fld in r.fields:
+            t = (fld.get('type') or '').strip()
+            if not allowed.match(t) and not allowed.match((fld.get('dtype') or '').strip()):
+                bad.append((fld.get('name'), t))
+        inst = '%s fields: %s' % (_short(qn), ', '.join('%s %s' % (f.get('type'), f.get('name')) for f in r.fields)[:100])
+        if bad:
+            chk.violation(rid, '%s|stateful field %s' % (_short(qn), bad[0][0]), locstr(r.node),
+                          '%s holds a field %s of type %s: an observation could depend on cached state instead of '
+                          'the database content, and would differ after reopening' % (_short(qn), bad[0][0], bad[0][1]))
+        else:
+            chk.ok(rid, inst, locstr(r.node))
+
+
 def run(tier='quick'):
     prog = program.load()
     cg = callgraph.get(prog)
@@ -107,23 +129,7 @@ def run(tier='quick'):
              'statelessness, not measured')
 
     # ---- N1 ------------------------------------------------------------------------------
-    for qn in STATELESS + CONTEXT:
-        r = prog.records.get(qn)
-        if r is None:
-            raise AnalysisBroken('class %s not found' % qn)
-        allowed = ALLOWED_CONTEXT_FIELD if qn in CONTEXT else ALLOWED_FIELD
-        bad = []
-        for fld in r.fields:
-            t = (fld.get('type') or '').strip()
-            if not allowed.match(t) and not allowed.match((fld.get('dtype') or '').strip()):
-                bad.append((fld.get('name'), t))
-        inst = '%s fields: %s' % (_short(qn), ', '.join('%s %s' % (f.get('type'), f.get('name')) for f in r.fields)[:100])
-        if bad:
-            chk.violation(N1, '%s|stateful field %s' % (_short(qn), bad[0][0]), locstr(r.node),
-                          '%s holds a field %s of type %s: an observation could depend on cached state instead of '
-                          'the database content, and would differ after reopening' % (_short(qn), bad[0][0], bad[0][1]))
-        else:
-            chk.ok(N1, inst, locstr(r.node))
+    handles_stateless(prog, chk, N1)
     # statics
     runtime_statics(prog, chk, N1)
     n_static = 0
